@@ -2,9 +2,11 @@
 """register_seed.py <prop> <agent out dir> — copy m1..m3 into seeded/<prop>-m<k>/ with normalised meta.json"""
 import sys, os, json, shutil, re, glob
 prop, out = sys.argv[1], sys.argv[2]
+prefix = sys.argv[3] if len(sys.argv) > 3 else ''
 ROOT = os.path.dirname(os.path.dirname(os.path.abspath(__file__)))
 for md in sorted(glob.glob(os.path.join(out, 'm*'))):
     k = os.path.basename(md)
+    k = prefix + k
     d = os.path.join(ROOT, 'seeded', f'{prop}-{k}')
     os.makedirs(d, exist_ok=True)
     for f in os.listdir(md):
